@@ -274,6 +274,11 @@ STAGES = {
                 AUTHTYPES='{"NOAUTH", "PLAIN", "AUTODISCOVER"}', AUTHLISTS='{{"PLAIN", "LOGIN"}}')),
             ('port-policy-by-setters', 'Session', cfg(OP='"DialAndSend"', N='1', MAXR='1', BUDGET='1', CAPSETS='{{}}', CLASSES='{"refuse", "p5"}', VARIANTS='{"setters"}',
                 POLICIES='{"mandatory", "opportunistic", "none"}', FALLBACK='{TRUE}', STARTTLSADV='BOOLEAN', HANDSHAKES='{"ok"}')),
+            # a configuration history: the port policy (opportunistic: 587, fallback 25) first, the TLS policy of the scenario afterwards through
+            # SetTLSPolicy / SetTLSPortPolicy - the fallback port of the first step is still there; the primary port is refused
+            ('policy-set-after-port-policy', 'Session', cfg(OP='"DialAndSend"', N='1', MAXR='1', BUDGET='1', CAPSETS='{{}}', CLASSES='{"refuse", "p5"}', VARIANTS='{"stalefallback"}',
+                POLICIES='{"mandatory", "opportunistic", "none"}', FALLBACK='{TRUE}', STARTTLSADV='BOOLEAN', HANDSHAKES='{"ok", "untrusted"}',
+                AUTHTYPES='{"NOAUTH", "PLAIN"}', AUTHLISTS='{{"PLAIN", "LOGIN"}}')),
             # a Client that has completed an encrypted, authenticated dial before (against another server), then the scenario
             ('warm-client', 'Session', cfg(OP='"Dial"', N='1', MAXR='1', BUDGET='0', CAPSETS='{{}}', VARIANTS='{"warmup"}',
                 POLICIES='{"mandatory", "opportunistic", "none"}', STARTTLSADV='BOOLEAN', HOSTKINDS='{"localhost", "other"}', HANDSHAKES='{"ok", "untrusted"}',
